@@ -94,7 +94,9 @@ func (p *plan) traceCopy() []string {
 
 // ---------------------------------------------------------------- goroutine-dump classifier
 
-var lockWait = regexp.MustCompile(`\[(sync\.RWMutex\.R?Lock|sync\.Mutex\.Lock|sync\.Cond\.Wait|semacquire|sync\.WaitGroup\.Wait|chan send)(, \d+ minutes)?\]`)
+// (no bare "semacquire": that is a goroutine held by the runtime itself - GC assist, stop-the-world - not a wait for
+// another goroutine; the sync package's waits carry their own names)
+var lockWait = regexp.MustCompile(`\[(sync\.RWMutex\.R?Lock|sync\.Mutex\.Lock|sync\.Cond\.Wait|sync\.WaitGroup\.Wait|chan send)(, \d+ minutes)?\]`)
 
 // libGoroutinesBlocked returns, for goroutines with a library frame on their stack,
 // how many there are and how many are in a lock wait.
